@@ -49,7 +49,7 @@ class ReleaseResponse(AbstractAcseApdu):
         if not tag == cls.TAG:
             raise ValueError("Bytes are not an RLRE APDU. TAg is not int(96)")
 
-        length = data.pop(0)
+        length = BER.pop_length(data)
 
         if not len(data) == length:
             raise ValueError(
@@ -71,7 +71,7 @@ class ReleaseResponse(AbstractAcseApdu):
                     f"in RLRQ definition"
                 )
 
-            object_length = data.pop(0)
+            object_length = BER.pop_length(data)
             object_data = bytes(data[:object_length])
             data = data[object_length:]
 
